@@ -289,7 +289,7 @@ impl Prop for C09Prop {
                 // a graph of thousands of edges (strategy thresholds), then a short tail
                 let regime = *hr.pick(&[gen::WeightRegime::AllNan, gen::WeightRegime::Dyadic, gen::WeightRegime::SmallInt, gen::WeightRegime::Nasty, gen::WeightRegime::Mixed]);
                 let mut wr = Rng::new(seed, "workload.huge");
-                case.ops = gen::gen_huge_history_v(&mut wr, specs, regime, false, &[0, 1, 2]);
+                case.ops = gen::gen_huge_history_v(&mut wr, specs, regime, false, &[0, 1, 2, 4]);
                 case.params.put("source", crate::core::json::J::s("history loading thousands of edges"));
                 case.envs = vec![Env { keying: if hr.chance(1, 2) { 0 } else { seed | 1 }, pool: if hr.chance(1, 8) { 1 } else { 2 + hr.below(15) }, sched: crate::core::rng::mix(seed, 78) }];
                 return case;
@@ -317,7 +317,7 @@ impl Prop for C09Prop {
     }
     fn cross(&self, _case: &Case, _results: &[EnvResult], _cx: &mut Ctx) {}
     fn rule(&self) -> String {
-        "lifecycle histories (<= 24 ops) over all 96 specs; after EVERY op: number_of_nodes/edges, size(false/true), per-node degree / in / out / weighted variants vs the edge multiset shown by get_all_edges, handshake identities, *_for_all_nodes maps vs per-node calls, degree_centrality, get_density (single-edge, n >= 2), sparse adjacency matrix entries by node position (WrongMethod on multi-edge). distinct_nontrivial = distinct (specs, history) whose final graph has edges and a self-loop, parallel edges or a name order different from insertion order; one case in 4000 loads 2 100 - 12 500 edges (one to three batches or the constructor, same edge values re-submitted on multi-edge graphs) into 45-180 nodes and continues with a short tail (strategy thresholds); the large histories come in variants: dense (45-180 nodes), 2 048 - 2 600 nodes declared in one call with a few names repeated, a hub with 1 100 - 1 600 neighbours; in half of them a load of 260-420 edges into ANOTHER graph is rejected part-way on the same thread first (fault, then recovery, at scale)".into()
+        "lifecycle histories (<= 24 ops) over all 96 specs; after EVERY op: number_of_nodes/edges, size(false/true), per-node degree / in / out / weighted variants vs the edge multiset shown by get_all_edges, handshake identities, *_for_all_nodes maps vs per-node calls, degree_centrality, get_density (single-edge, n >= 2), sparse adjacency matrix entries by node position (WrongMethod on multi-edge). distinct_nontrivial = distinct (specs, history) whose final graph has edges and a self-loop, parallel edges or a name order different from insertion order; one case in 4000 loads 2 100 - 12 500 edges (one to three batches or the constructor, same edge values re-submitted on multi-edge graphs) into 45-180 nodes and continues with a short tail (strategy thresholds); the large histories come in variants: dense (45-180 nodes), 2 048 - 2 600 nodes declared in one call with a few names repeated, a hub with 1 100 - 1 600 neighbours; in half of them a load of 260-420 edges into ANOTHER graph is rejected part-way on the same thread first (fault, then recovery, at scale); also 10 001 - 13 000 nodes, groups of more than 1 024 parallel edges on one pair".into()
     }
     fn assumptions(&self) -> Vec<String> {
         vec!["weighted quantities at 1e-9; weighted variants only on graphs whose edges all carry weights".into(), "that in-/out- queries refuse undirected graphs is C02's business, not asserted here".into()]
